@@ -12,7 +12,8 @@ from harness.props import c01
 
 PROPERTY_ID = 'C07'
 RULE = ('EconSpecs with 2-3 currency zones and at least one cross-zone link (gifts in both directions, several per pair; '
-        'cross-zone suppliers that are single- or multi-output firms; at most one gold-standard government), exchange-rate '
+        'cross-zone suppliers that are single- or multi-output firms; at most one gold-standard government; optionally a rest-of-the-world sector inside the external sector paying or '
+        'receiving a flow), exchange-rate '
         'paths per currency drawn as time-varying decimals in [0.5, 3.0] (never all 1.0); the same specs are also built '
         'WITHOUT an external sector. Oracle per period k>=1 on the exact solution: sum_c NET_c*XR_c + NET_NUMERAIRE == 0; '
         'NET_NUMERAIRE == 0 without gold purchases; coefficient of each cross flow in the receiver\'s F equation == '
@@ -46,6 +47,11 @@ def case(draw):
         if z['currency'] not in spec['xr'] or all(v == '1.00' for v in spec['xr'][z['currency']]):
             spec['xr'][z['currency']] = draw(econ.path(K, 50, 300))
     spec['without_external'] = draw(gen.chance(1, 4))
+    # a "rest of the world" sector living in the external sector's own (numeraire) zone, receiving or paying a flow
+    if draw(gen.chance(1, 3)):
+        a = draw(st.sampled_from(all_c))
+        spec['row'] = {'country': list(a), 'amount': econ.dec2(draw(st.integers(1, 2000))),
+                       'direction': draw(st.sampled_from(['to-row', 'to-row', 'from-row']))}
     return spec
 
 
@@ -66,7 +72,25 @@ def run(spec):
         if any(len(s) > 1 for s in built.model.EquationSolver.TimeSeries.values()):
             raise Violation('C07/no-external-produced-numbers', 'periods were solved although the model was refused')
         return {'nontrivial': True, 'labels': labels + ['without-external']}
-    built, system, sol = c01.solve_spec(spec)
+    row = spec.get('row')
+    row_objs = {}
+
+    def hooks(b):
+        if row is None or b.model.ExternalSector is None:
+            return
+        from sfc_models.sector import Sector
+        r = Sector(b.model.ExternalSector, 'ROW', 'Rest of the world')
+        hh = b.sectors[(row['country'][0], row['country'][1], 'hh0')]
+        if row['direction'] == 'to-row':
+            hh.AddVariable('ROWPAY', 'payment to the rest of the world', row['amount'])
+            b.model.RegisterCashFlow(hh, r, 'ROWPAY')
+        else:
+            r.AddVariable('ROWPAY', 'payment from the rest of the world', row['amount'])
+            b.model.RegisterCashFlow(r, hh, 'ROWPAY')
+        row_objs['row'] = r
+        row_objs['hh'] = hh
+
+    built, system, sol = c01.solve_spec(spec, hooks=hooks)
     if not sol.ok():
         raise Reject('reference solve: %r' % ([s for s in sol.status if s not in ('given', 'unique')][:1],))
     mod = built.model
@@ -84,9 +108,34 @@ def run(spec):
             tot += v[fx.GetVariableName('NET_' + cur)] * v[xr.GetVariableName(cur)]
         if tot != 0:
             raise Violation('C07/fx-value-not-conserved', 'period %d: sum of NET_c*XR_c + NET_NUMERAIRE = %s' % (k, float(tot)))
-        if not has_gold and v[fx.GetVariableName('NET_NUMERAIRE')] != 0:
+        if not has_gold and row is None and v[fx.GetVariableName('NET_NUMERAIRE')] != 0:
             raise Violation('C07/numeraire-position', 'period %d: NET_NUMERAIRE = %s with paired flows only' %
                             (k, float(v[fx.GetVariableName('NET_NUMERAIRE')])))
+    # the rest-of-the-world sector: credited / debited at the sender's rate over 1 (the numeraire's own rate)
+    if row is not None and 'row' in row_objs:
+        labels.append('row-' + row['direction'])
+        r, hh = row_objs['row'], row_objs['hh']
+        cur_h = spec['zones'][row['country'][0]]['currency']
+        for k in range(1, K + 1):
+            v = sol.values[k]
+            rate = v[xr.GetVariableName(cur_h)]
+            if row['direction'] == 'to-row':
+                var = hh.GetVariableName('ROWPAY')
+                credited, want = r, rate
+            else:
+                var = r.GetVariableName('ROWPAY')
+                credited, want = hh, 1 / rate
+            known = dict(v)
+            known.pop(var, None)
+            got = expr.affine_eval(system.eqs[credited.GetVariableName('F')], known).coef.get(var, Fraction(0))
+            if got != want:
+                raise Violation('C07/credited-at-wrong-rate', 'period %d: %s (%s) credits %s at %s per unit, the rates give %s' %
+                                (k, var, row['direction'], credited.FullCode, float(got), float(want)))
+            # the numeraire zone is consistent as well: its only holder of financial assets is ROW
+            dF = v[r.GetVariableName('F')] - sol.values[k - 1][r.GetVariableName('F')]
+            if dF + v[fx.GetVariableName('NET_NUMERAIRE')] != 0 and not has_gold:
+                raise Violation('C07/numeraire-zone-not-consistent', 'period %d: change in ROW assets %s + NET_NUMERAIRE %s != 0' %
+                                (k, float(dF), float(v[fx.GetVariableName('NET_NUMERAIRE')])))
     # coefficient of each cross flow
     S = built.sectors
     for li, l in enumerate(spec['links']):
